@@ -265,6 +265,13 @@ Theorem C18_remote_release_late_refuted : exists r,
   refs_after (handler_refops false r ++ sub_close_refops r) = Some 1.
 Proof. exact remote_refs_release_late_refuted. Qed.
 
+(* In `step` a remote create-subscriber is a create-subscriber: one pending creation
+   of kind Sub, completed by one OMcuDone (whose result is rres_mres of the outcome
+   of the two calls at the media server). *)
+Theorem C18_remote_create_is_create : forall sv keys rc st c,
+  step sv keys rc st (OCmd c CCreateSubRemote) = step sv keys rc st (OCmd c CCreateSub).
+Proof. reflexivity. Qed.
+
 Print Assumptions C18_params.
 Print Assumptions C18_hello_sound.
 Print Assumptions C18_token_complete.
@@ -285,3 +292,4 @@ Print Assumptions C18_create_after_close_refuted.
 Print Assumptions C18_create_after_close_repaired.
 Print Assumptions C18_remote_publisher_refs.
 Print Assumptions C18_remote_release_late_refuted.
+Print Assumptions C18_remote_create_is_create.
